@@ -38,13 +38,15 @@ Json Workload::ToJson() const {
   j["eb_method"] = eb_method;
   j["espeed"] = espeed;
   j["dspeed"] = dspeed;
-  Json q = Json::Array(), p = Json::Array();
+  Json q = Json::Array(), p = Json::Array(), x = Json::Array();
   for (int i = 0; i < 5; ++i) {
     q.push(qb[i]);
     p.push(pred[i]);
+    x.push(xq[i]);
   }
   j["qb"] = q;
   j["pred"] = p;
+  j["xq"] = x;
   j["split"] = split;
   j["builtin"] = builtin;
   j["compress_conn"] = compress_conn;
@@ -81,6 +83,8 @@ Workload Workload::FromJson(const Json &j) {
       w.qb[i] = static_cast<int>(j.get("qb").at(i).Int());
     if (j.get("pred").size() > static_cast<size_t>(i))
       w.pred[i] = static_cast<int>(j.get("pred").at(i).Int(-1));
+    if (j.get("xq").size() > static_cast<size_t>(i))
+      w.xq[i] = static_cast<int>(j.get("xq").at(i).Int(0));
   }
   w.split = static_cast<int>(j.get("split").Int(-1));
   w.builtin = static_cast<int>(j.get("builtin").Int(-1));
@@ -159,7 +163,7 @@ Workload GenerateWorkload(Rng rng, int size_class, int force_kind) {
   }
   w.atts.push_back(pos);
   if (w.kind == 0) {
-    w.topo = static_cast<int>(r.Below(9));
+    w.topo = static_cast<int>(r.Below(10));
     int extra = static_cast<int>(r.Below(4));
     static const int types[] = {GeometryAttribute::NORMAL,
                                 GeometryAttribute::TEX_COORD,
@@ -214,6 +218,12 @@ Workload GenerateWorkload(Rng rng, int size_class, int force_kind) {
   if (w.kind == 1 && w.method == 1) {
     for (int t = 0; t < 5; ++t)
       if (!w.qb[t]) w.qb[t] = def_q[t];
+  }
+  // Explicit quantization box for some attribute types (not normals: they use
+  // the octahedral transform).
+  for (int t = 0; t < 5; ++t) {
+    if (t == 1 || !w.qb[t]) continue;
+    if (r.Fork(7000 + t).Chance(1, 6)) w.xq[t] = static_cast<int>(r.Fork(7100 + t).Range(1, 4));
   }
   // Prediction schemes.
   if (r.Chance(1, 2)) {
@@ -373,6 +383,22 @@ void BuildTopology(const Workload &w, Rng *r, std::vector<float> *pos,
         Tri t;
         for (int c = 0; c < 3; ++c) t.v[c] = static_cast<int>(r->Below(nv));
         tris->push_back(t);
+      }
+      break;
+    }
+    case 9: {  // closed cubes (12 faces, 8 vertices each)
+      static const int f[12][3] = {{0, 2, 1}, {0, 3, 2}, {4, 5, 6}, {4, 6, 7},
+                                   {0, 1, 5}, {0, 5, 4}, {1, 2, 6}, {1, 6, 5},
+                                   {2, 3, 7}, {2, 7, 6}, {3, 0, 4}, {3, 4, 7}};
+      const int cubes = (n + 11) / 12;
+      for (int c = 0; c < cubes; ++c) {
+        const float o = c * 3.f;
+        const int b = static_cast<int>(pos->size() / 3);
+        for (int i = 0; i < 8; ++i)
+          add_vertex(o + ((i & 1) ^ ((i >> 1) & 1) ? 1.f : 0.f) + jit(),
+                     ((i >> 1) & 1 ? 1.f : 0.f) + jit(), (i >> 2 ? 1.f : 0.f) + jit());
+        for (int i = 0; i < 12; ++i)
+          tris->push_back(Tri{{b + f[i][0], b + f[i][1], b + f[i][2]}});
       }
       break;
     }
@@ -685,7 +711,13 @@ void ApplyOptions(const Workload &w, draco::Encoder *enc) {
                          w.dspeed < 0 ? 5 : w.dspeed);
   if (w.method >= 0) enc->SetEncodingMethod(w.method);
   for (int t = 0; t < 5; ++t) {
-    if (w.qb[t] > 0)
+    if (w.qb[t] > 0 && w.xq[t] > 0) {
+      float origin[4];
+      for (int d = 0; d < 4; ++d) origin[d] = -64.f - t - d;
+      enc->SetAttributeExplicitQuantization(
+          static_cast<GeometryAttribute::Type>(t), w.qb[t], w.xq[t] > 4 ? 4 : w.xq[t],
+          origin, 256.f);
+    } else if (w.qb[t] > 0)
       enc->SetAttributeQuantization(static_cast<GeometryAttribute::Type>(t),
                                     w.qb[t]);
     if (w.pred[t] != -1)
@@ -705,7 +737,14 @@ void ApplyOptions(const Workload &w, const draco::PointCloud &pc,
   for (int i = 0; i < pc.num_attributes(); ++i) {
     int t = pc.attribute(i)->attribute_type();
     if (t < 0 || t > 4) continue;
-    if (w.qb[t] > 0) enc->SetAttributeQuantization(i, w.qb[t]);
+    if (w.qb[t] > 0 && w.xq[t] > 0) {
+      float origin[4];
+      for (int d = 0; d < 4; ++d) origin[d] = -64.f - t - d;
+      enc->SetAttributeExplicitQuantization(i, w.qb[t], w.xq[t] > 4 ? 4 : w.xq[t],
+                                            origin, 256.f);
+    } else if (w.qb[t] > 0) {
+      enc->SetAttributeQuantization(i, w.qb[t]);
+    }
     if (w.pred[t] != -1) enc->SetAttributePredictionScheme(i, w.pred[t]);
   }
   if (w.builtin >= 0) enc->SetUseBuiltInAttributeCompression(w.builtin != 0);
